@@ -25,6 +25,7 @@ class Pools:
         self.scripts_backend = self._load_scripts(os.path.join(repo, "tests", "onnx_backend_test_code", "*.py"))
         self.texts = self._harvest_texts()
         self.script_models = self._script_models()
+        self.ort_script_models = self._ort_script_models()
         self.backend_models = self._backend_models()
 
     # ---------------------------------------------------------------- scripts
@@ -87,6 +88,67 @@ class Pools:
                 for node in tree.body:
                     if isinstance(node, ast.FunctionDef) and any("script" in ast.unparse(d) for d in node.decorator_list):
                         out.append((os.path.relpath(f, self.repo), node.name, src))
+        return out
+
+    def _ort_script_models(self) -> list[dict]:
+        """Models of the ORT fusion tests: module-level @script functions of onnxscript/rewriter/ort_fusions/*_test.py and the
+        small rotary-embedding models, each with the input/output types its test passes to to_model_proto (harvested from the
+        call sites by AST; `self.X` in those expressions resolves to the test classes' class-level assignments). The source
+        kept is the file reduced to its imports, module-level assignments and functions (no test classes)."""
+        out = []
+        files = sorted(glob.glob(os.path.join(self.repo, "onnxscript/rewriter/ort_fusions/*_test.py")))
+        files.append(os.path.join(self.repo, "onnxscript/rewriter/models/_rotary_embedding_models.py"))
+        for f in files:
+            try:
+                tree = ast.parse(open(f, encoding="utf-8").read())
+            except (OSError, SyntaxError):
+                continue
+            keep, names, cls_assigns = [], set(), []
+            for node in tree.body:
+                if isinstance(node, (ast.Import, ast.ImportFrom, ast.Assign, ast.AnnAssign)):
+                    keep.append(node)
+                elif isinstance(node, ast.FunctionDef):
+                    keep.append(node)
+                    if any("script" in ast.unparse(d) for d in node.decorator_list):
+                        names.add(node.name)
+                elif isinstance(node, ast.ClassDef):
+                    cls_assigns += [st for st in node.body if isinstance(st, ast.Assign)]
+            if not names:
+                continue
+            if cls_assigns:
+                keep.append(ast.ClassDef(name="self", bases=[], keywords=[], body=cls_assigns, decorator_list=[], type_params=[]))
+            try:
+                reduced = ast.unparse(ast.fix_missing_locations(ast.Module(body=keep, type_ignores=[])))
+            except Exception:  # noqa: BLE001
+                continue
+            sites = set()
+            for n in ast.walk(tree):
+                if not isinstance(n, ast.Call) or not isinstance(n.func, ast.Attribute):
+                    continue
+                fn, pos = None, []
+                if n.func.attr == "to_model_proto" and isinstance(n.func.value, ast.Name) and n.func.value.id in names:
+                    fn = n.func.value.id
+                elif n.func.attr.startswith("_build") and n.args and isinstance(n.args[0], ast.Name) and n.args[0].id in names:
+                    fn, pos = n.args[0].id, n.args[1:]
+                if fn is None:
+                    continue
+                kws = {k.arg: ast.unparse(k.value) for k in n.keywords if k.arg in ("input_types", "output_types")}
+                if len(pos) >= 1:
+                    kws.setdefault("input_types", ast.unparse(pos[0]))
+                if len(pos) >= 2:
+                    kws.setdefault("output_types", ast.unparse(pos[1]))
+                sites.add((fn, kws.get("input_types"), kws.get("output_types")))
+            for s in names:
+                if not any(x[0] == s for x in sites):
+                    sites.add((s, None, None))
+            rel = os.path.relpath(f, self.repo)
+            for fn, it, ot in sorted(sites, key=str):
+                m = {"pool": "script", "src": reduced, "fn": fn, "family": "ortm:" + os.path.basename(rel)}
+                if it:
+                    m["it"] = it
+                if ot:
+                    m["ot"] = ot
+                out.append(m)
         return out
 
     @staticmethod
